@@ -32,7 +32,7 @@ def check_pair(A, B, ctx, label=''):
     case = {'A': A, 'B': B, 'label': label}
     a, b = U.to_node(A), U.to_node(B)
     try:
-        with time_limit(30):
+        with time_limit(60):
             d = nbdime.diff_notebooks(a, b)
     except Exception as e:
         ctx.violation(exc_fingerprint(PROP, e, 'DIFF-EXC'), 'diff_notebooks raised %s: %s' % (type(e).__name__, e), case)
@@ -46,7 +46,7 @@ def check_pair(A, B, ctx, label=''):
     if ca == cb:
         ctx.violation('%s|NONEMPTY-DIFF-OF-EQUAL' % PROP, 'non-empty diff for identical notebooks', case)
     try:
-        with time_limit(30):
+        with time_limit(60):
             p = nbdime.patch_notebook(a, d)
         if canon(p) != cb:
             ctx.violation('%s|ROUNDTRIP|%s' % (PROP, classify(U.plain(p), B)), 'patch_notebook(A, diff) != B', case)
@@ -81,14 +81,14 @@ def check_files(A, B, ctx, tmpdir, label=''):
     sys.stdout, sys.stderr = io.StringIO(), io.StringIO()
     try:
         try:
-            with time_limit(30):
+            with time_limit(60):
                 rc = nbdiffapp.main([fa, fb, '--out', fd])
             if rc not in (0, None):
                 ctx.violation('%s|FILES|nbdiff-status' % PROP, 'nbdiff --out returned %r' % (rc,), case)
                 return
             with open(fd, encoding='utf8') as f:
                 json.load(f)
-            with time_limit(30):
+            with time_limit(60):
                 rc = nbpatchapp.main([fa, fd, '-o', fo])
             if rc not in (0, None):
                 ctx.violation('%s|FILES|nbpatch-status' % PROP, 'nbpatch -o returned %r' % (rc,), case)
